@@ -54,6 +54,8 @@ class ParameterSection(Micheline, prim='parameter', args_len=1):
                 flat_args = root_type.get_flat_args(entrypoints=True)  # type: ignore
                 assert isinstance(flat_args, dict), f'expected a named type, got {flat_args}'
                 root_name = 'root' if 'default' in flat_args else 'default'
+                while root_name in flat_args:  # a branch may be annotated %root as well
+                    root_name = f'_{root_name}'
         else:
             root_name = root_type.field_name or 'default'
         res = type(cls.__name__, (cls,), dict(args=args, root_name=root_name, **kwargs))
